@@ -207,6 +207,8 @@ class Session:
         return step
 
     def _fw(self, op):
+        if op.get("bad_path"):
+            return self._fw_bad_path(op)
         image = image_bytes(op["image"]) if op.get("image") else None
         sleeping_before = {nid for nid, n in self.model.nodes.items() if n.sleeping}
         step = self.driver.update_fw(op["nids"], op["type"], op["ver"], image=image, via_path=bool(op.get("via_path")))
@@ -217,6 +219,28 @@ class Session:
         exp = M.Expect()
         self._check_emissions(step, exp, sleeping_before, inbound=None)
         self._check_state("after update_fw")
+        return step
+
+    def _fw_bad_path(self, op):
+        """update_fw with a firmware file that is missing or not Intel-HEX: the call is a no-op."""
+        import tempfile
+
+        path = os.path.join(tempfile.gettempdir(), f"vf_no_such_fw_{os.getpid()}.hex")
+        if op["bad_path"] == "garbage":
+            with open(path, "w", encoding="utf-8") as fh:
+                fh.write(":10000000ZZZZ not intel hex\nhello\n")
+        before = self.driver.snapshot()
+        try:
+            step = self.driver.update_fw(op["nids"], op["type"], op["ver"], path=path)
+        finally:
+            if os.path.exists(path):
+                os.remove(path)
+        if step.exc is not None:
+            raise Clause({"crash", "ota"}, f"crash.{type(step.exc).__name__}", f"pump raised after update_fw with an unusable firmware file: {step.exc!r}")
+        after = self.driver.snapshot()
+        if after != before or step.sent:
+            raise Clause({"ota"}, "unusable_firmware_file_has_effect", f"update_fw({op['nids']}, {op['type']}, {op['ver']}, fw_path=<{op['bad_path']}>) changed {diff_keys(before, after)} (raised {step.call_exc!r})")
+        self.labels.add("fw-bad-path")
         return step
 
     # -- clauses ----------------------------------------------------------------
